@@ -97,6 +97,8 @@ fn compositions(compressed: bool, tier: Tier) -> Vec<Step> {
     let (singles, bursts) = compositions_raw(compressed, tier);
     let mut out: Vec<Step> = singles.into_iter().map(|d| vec![d]).collect();
     out.extend(bursts);
+    // the empty step = a transient socket error (see run_blocking)
+    out.push(vec![]);
     out
 }
 
@@ -164,15 +166,37 @@ fn sizes_of(d: &[Vec<u8>]) -> String {
 
 fn run_blocking(compressed: bool, comps: &[Step], hist: &[u8]) -> Run {
     let mut out = Run::default();
-    let peer = std::net::UdpSocket::bind("127.0.0.1:0").unwrap();
+    let mut peer = std::net::UdpSocket::bind("127.0.0.1:0").unwrap();
     let sock = std::net::UdpSocket::bind("127.0.0.1:0").unwrap();
     sock.connect(peer.local_addr().unwrap()).unwrap();
     peer.connect(sock.local_addr().unwrap()).unwrap();
     sock.set_read_timeout(Some(watchdog())).unwrap();
+    let (peer_addr, sock_addr) = (peer.local_addr().unwrap(), sock.local_addr().unwrap());
     let cell = Arc::new(Mutex::new(vec![]));
     let spy = SpyB { inner: blocking_impl::UdpStream::from(sock), cell: cell.clone() };
     let mut framed = blocking_impl::Framed::new(Box::new(spy), Codec::new(mode_of(compressed)));
     for (step, ci) in hist.iter().enumerate() {
+        if comps[*ci as usize].is_empty() {
+            // a transient socket error: the peer's port closes, one packet of ours bounces (ICMP port
+            // unreachable), the next receive reports it; then the peer is back on the same port
+            drop(peer);
+            let _ = framed.write(insim::Packet::Tiny(insim::insim::Tiny { reqi: insim::identifiers::RequestId(1), subt: insim::insim::TinyType::Ping }));
+            let r = framed.read();
+            out.got.push(vec![format!("fault: {}", match &r { Ok(p) => format!("Ok({p:?})"), Err(e) => format!("Err({e})") })]);
+            if let Ok(p) = r {
+                out.problem = Some(("packet-from-nowhere".into(), format!("step #{step}: nothing was sent, yet read returned {p:?}")));
+                return out;
+            }
+            peer = match std::net::UdpSocket::bind(peer_addr) {
+                Ok(p) => p,
+                Err(e) => {
+                    out.problem = Some(("harness".into(), format!("cannot re-bind the peer port: {e}")));
+                    return out;
+                },
+            };
+            peer.connect(sock_addr).unwrap();
+            continue;
+        }
         let (bytes, frames) = datagram(compressed, &comps[*ci as usize], step);
         let want = expected(compressed, &frames);
         for d in &bytes {
@@ -211,14 +235,34 @@ fn run_tokio(compressed: bool, comps: &[Step], hist: &[u8]) -> Run {
     let rt = tokio::runtime::Builder::new_current_thread().enable_io().enable_time().build().unwrap();
     rt.block_on(async {
         let mut out = Run::default();
-        let peer = tokio::net::UdpSocket::bind("127.0.0.1:0").await.unwrap();
+        let mut peer = tokio::net::UdpSocket::bind("127.0.0.1:0").await.unwrap();
         let sock = tokio::net::UdpSocket::bind("127.0.0.1:0").await.unwrap();
         sock.connect(peer.local_addr().unwrap()).await.unwrap();
         peer.connect(sock.local_addr().unwrap()).await.unwrap();
+        let (peer_addr, sock_addr) = (peer.local_addr().unwrap(), sock.local_addr().unwrap());
         let cell = Arc::new(Mutex::new(vec![]));
         let spy = SpyT { inner: tokio_impl::UdpStream::from(sock), cell: cell.clone() };
         let mut framed = tokio_impl::Framed::new(Box::new(spy), Codec::new(mode_of(compressed)));
         for (step, ci) in hist.iter().enumerate() {
+            if comps[*ci as usize].is_empty() {
+                drop(peer);
+                let _ = tokio::time::timeout(watchdog(), framed.write(insim::Packet::Tiny(insim::insim::Tiny { reqi: insim::identifiers::RequestId(1), subt: insim::insim::TinyType::Ping }))).await;
+                let r = tokio::time::timeout(watchdog(), framed.read()).await;
+                out.got.push(vec![format!("fault: {}", match &r { Ok(Ok(p)) => format!("Ok({p:?})"), Ok(Err(e)) => format!("Err({e})"), Err(_) => "no error reported".into() })]);
+                if let Ok(Ok(p)) = r {
+                    out.problem = Some(("packet-from-nowhere".into(), format!("step #{step}: nothing was sent, yet read returned {p:?}")));
+                    return out;
+                }
+                peer = match tokio::net::UdpSocket::bind(peer_addr).await {
+                    Ok(p) => p,
+                    Err(e) => {
+                        out.problem = Some(("harness".into(), format!("cannot re-bind the peer port: {e}")));
+                        return out;
+                    },
+                };
+                peer.connect(sock_addr).await.unwrap();
+                continue;
+            }
             let (bytes, frames) = datagram(compressed, &comps[*ci as usize], step);
             let want = expected(compressed, &frames);
             for d in &bytes {
